@@ -460,8 +460,14 @@ fn check_type_relation<T: TypeLookup>(
                 fields: fields2,
             },
         ) => {
-            // A named pattern only admits tuples of that name, so self must carry the same name
-            if name2.is_some() && name1 != name2 {
+            // Assignability: a named pattern only admits tuples of that name, so self must carry
+            // the same name. Overlap: an unnamed partial still shares values with a named one, so
+            // only two different names exclude each other.
+            let names_conflict = match mode {
+                UnionMode::All => name2.is_some() && name1 != name2,
+                UnionMode::Any => name1.is_some() && name2.is_some() && name1 != name2,
+            };
+            if names_conflict {
                 return false;
             }
 
